@@ -89,6 +89,14 @@ func tabResult(res []tabular.TabularOutputResult, err tree.ParsingError) Resp {
 	var hdrs [][]string
 	for _, x := range res {
 		out += x.Output
+		for _, row := range x.StatementMap {
+			for k, v := range row {
+				if !utf8.ValidString(v) {
+					// JSON encoding would replace the invalid bytes: hand the exact bytes over in hex
+					row[k] = "\x00hex:" + hex.EncodeToString([]byte(v))
+				}
+			}
+		}
 		rows = append(rows, x.StatementMap)
 		hdrs = append(hdrs, x.HeaderSymbols)
 	}
